@@ -282,6 +282,7 @@ func C10(ctx *core.Ctx, r *core.Report) {
 		r.Borrow(sub, "no-lossy-text")
 	}
 	c10DecodedLengthHonoured(ctx, r)
+	c10BitsByPosition(ctx, r)
 }
 
 // c10ConvTotal: every return of val.Conv (and node.NewValue) returns a
